@@ -745,6 +745,55 @@ func runIdxIntersect(c *core.Ctx) {
 			}
 		}
 	}
+	if !(resid && guarded) {
+		// the residual test written out: `since != nil && ev.CreatedAt < *since → skip`, `until != nil &&
+		// *until < ev.CreatedAt → skip` in front of the insertion
+		fp := "p:" + find.Params[1].Name()
+		var set ssa.CallInstruction
+		for _, ci := range calls(find) {
+			if treemapCall(ci, "Set") {
+				set = ci
+			}
+		}
+		okBoth := set != nil
+		for _, bound := range []struct {
+			field string
+			want  an.Set
+		}{{"Since", an.Range(0, an.PosInf)}, {"Until", an.Range(an.NegInf, 0)}} {
+			if !okBoth {
+				break
+			}
+			sym := fp + "." + bound.field
+			subj := ""
+			an.Instrs(find, func(in ssa.Instruction) {
+				b, isB := in.(*ssa.BinOp)
+				if !isB {
+					return
+				}
+				x, y := an.PathOf(b.X), an.PathOf(b.Y)
+				if y == sym && strings.HasSuffix(x, ".CreatedAt") {
+					subj = x
+				}
+				if x == sym && strings.HasSuffix(y, ".CreatedAt") {
+					subj = y
+				}
+			})
+			if subj == "" {
+				okBoth = false
+				break
+			}
+			fr := an.SymFrame(subj, sym).AssumePresent(sym)
+			fr.Domain = nil
+			acc, n, okr := fr.ReachSet(find, set.Block(), nil, nil)
+			c.CountPaths(n)
+			if !okr || !acc.Equal(bound.want) {
+				okBoth = false
+			}
+		}
+		if okBoth {
+			resid, guarded = true, true
+		}
+	}
 	c.Check(resid && guarded, nil, fname(c, find), "residual(since,until)", P.Pos(find.Pos()), "candidates enter the result only if a matcher over exactly {Since, Until} of the filter accepts them", fmt.Sprintf("since/until are not applied on the index path (residual filter literal ok: %v, insertion guarded by its Match: %v)", resid, guarded))
 }
 
